@@ -145,6 +145,7 @@ def canaries(cases):
         c["dev"] = ""
         out.append(("round trip (%s) expected to lose the sampled bit" % f, c))
     for i, (_, c) in enumerate(out):
+        c["orig"] = c["id"]
         c["id"] = 10 ** 9 + i
     return out
 
@@ -199,14 +200,16 @@ def replay_cases(ctx, exe, cases):
     n = 12 if ctx.tier == "thorough" else 4
     can = canaries(cases)
     cres = propagation.run_cases(ctx, exe, [c for _, c in can], n, procs=1, tag="canary")
+    results = propagation.run_cases(ctx, exe, cases, n, procs=4)
     for why, c in can:
         r = cres.get(c["id"])
-        if r is not None and r.get("v") == "crash":
-            continue        # the real code crashed on a legitimate input: reported below with the real cases
-        if r is None or r.get("v") != "bad":
-            raise Broken("binding canary not detected (%s): %s" % (why, r))
+        orig = results.get(c["orig"], {}).get("v")
+        if r is not None and r.get("v") in ("bad", "crash"):
+            continue
+        if orig in ("bad", "crash") or (orig is None and any(x.get("v") == "crash" for x in results.values())):
+            continue        # the real code already fails on the uncorrupted case (reported below)
+        raise Broken("binding canary not detected (%s): %s" % (why, r))
     ctx.extra["canaries_detected"] = len(can)
-    results = propagation.run_cases(ctx, exe, cases, n, procs=4)
     cnt = classify(ctx, cases, results, n)
     if not ctx.violations and (cnt["valid"] == 0 or cnt["unchanged"] == 0):
         raise Broken("vacuity: the real propagators never accepted / never rejected: %s" % cnt)
